@@ -3,6 +3,4 @@ package sim
 func oracleC02(r *Result) {}
 func oracleC09(r *Result) {}
 func oracleC11(r *Result) {}
-func oracleC12(r *Result) {}
-func oracleC13(r *Result) {}
 func oracleC15(r *Result) {}
